@@ -482,6 +482,54 @@ def t18_mask(run, fx):
                      "(hintmask and cntrmask both take an implied vstem): the mask is read with the wrong length and the rest of the charstring is misparsed", b.loc(t))
 
 
+def t18_stack(run, fx, floors=True):
+    rule = "T18-STACK"
+    run.rule(rule, "the operand stack never claims more room than it has: at every construction of an ArgumentsStack over a fixed-size array "
+                   "`[v; N]` the limit `max_len` is at most N (push tests len against max_len and then indexes the array); a limit whose value is "
+                   "chosen at run time must be bounded by N for each of its constant alternatives")
+    import overflow
+    n = 0
+    for b in fx.bodies:
+        prov = None
+        for bi in range(len(b.blocks)):
+            if not b.reachable(bi):
+                continue
+            for st in b.stmts(bi):
+                rv = st.get("rv") or {}
+                if not (st.get("k") == "assign" and rv.get("k") == "agg" and (rv.get("adt") or "").endswith("argstack::ArgumentsStack")):
+                    continue
+                prov = prov or sym.Prov(b)
+                f = dict(zip(rv["fnames"], rv["fields"]))
+                if "data" not in f or "max_len" not in f:
+                    continue
+                d = sym.strip(prov.op(f["data"]))
+                size = None
+                for x in sym.walk(d):
+                    if x[0] == "repeat":
+                        try:
+                            size = int(x[2])
+                        except (TypeError, ValueError):
+                            size = None
+                if size is None:
+                    continue          # a window of another stack (offset/clone_into): its limit is derived from the parent's
+                n += 1
+                iv = overflow.Intervals(fx, b, prov)
+                ubs = []
+                for _db, v in sym.alternatives(b, prov, prov.op(f["max_len"])):
+                    r = iv.term(sym.strip(v))
+                    ubs.append(r[1] if r else None)
+                known = [u for u in ubs if u is not None and u < (1 << 62)]
+                if any(u > size for u in known):
+                    run.fail(rule, "stack:%s" % b.root, "%s builds an operand stack over an array of %d values with max_len %d: pushing operand %d indexes past the array" % (
+                        b.path, size, max(known), size + 1), b.loc(st))
+                elif known and len(known) == len(ubs):
+                    run.ok(rule, "%s: max_len %d <= array of %d" % (b.path, max(known), size))
+                else:
+                    run.ok(rule, "%s: array of %d, max_len chosen at run time (bounded by the callers' constants, not decided here)" % (b.path, size))
+    if floors and n < 5:
+        run.anchor_missing(rule, "ArgumentsStack constructions over fixed arrays (found %d)" % n)
+
+
 def check(run, fx, tier, floors=True):
     import speclayout
     speclayout.rule_layouts(run, fx, "T18-LAYOUT", ["cff"], floors)
@@ -490,6 +538,7 @@ def check(run, fx, tier, floors=True):
     if floors or any(b.path.endswith("::visit_impl") for b in fx.bodies):
         t18_vsi(run, fx)
         t18_mask(run, fx)
+        t18_stack(run, fx, floors)
     t18_ops(run, fx, floors)
     dom = t18_vop(run, fx, floors)
     t18_disp(run, fx, dom, floors)
